@@ -1242,10 +1242,29 @@ impl Property for C11 {
                 ops.push(Op::Event { level: 4, target });
                 Case::Dynamic { sdirs, ddirs, as_filter, ops, ctor: 0, dflt: None, under_dyn: false }
             });
+        // late-record template: one span is named by a name-only directive and by a more verbose
+        // value directive; the value arrives through a later record, before the span is entered
+        let late = (0u8..2, val_strategy(), 1u8..=4, 1u8..=5, 0u8..6, any::<bool>(), proptest::collection::vec(sdir_strategy(), 0..2), proptest::option::weighted(0.5, val_strategy()))
+            .prop_map(|(f, v, l1, more, target, as_filter, sdirs, wrong_first)| {
+                let l2 = (l1 + more).min(5);
+                let ddirs = vec![
+                    DDir { target: None, span: Some(0), field: None, level: l1, field2: None },
+                    DDir { target: None, span: Some(0), field: Some((f, Some(v))), level: l2, field2: None },
+                ];
+                // (optionally the OTHER field gets a value at creation: it satisfies nothing)
+                let (x, y) = if f % 2 == 0 { (None, wrong_first) } else { (wrong_first, None) };
+                let mut ops = vec![Op::Open { slot: 0, name: 0, target, x, y }, Op::Record { slot: 0, field: f, v }, Op::Enter { slot: 0 }];
+                for l in 0..5u8 {
+                    ops.push(Op::Event { level: l, target });
+                }
+                ops.push(Op::Exit);
+                ops.push(Op::Event { level: 4, target });
+                Case::Dynamic { sdirs, ddirs, as_filter, ops, ctor: 0, dflt: None, under_dyn: false }
+            });
         let tokens = proptest::collection::vec(any::<u8>(), 1..16).prop_map(|data| Case::Tokens { data });
         let fdir = (proptest::option::weighted(0.8, 0u8..3), proptest::collection::vec(0u8..4, 0..4), 0u8..6).prop_map(|(target, fields, level)| FDir { target, fields, level });
         let fdirs = proptest::collection::vec(fdir, 1..5).prop_map(|dirs| Case::FieldDirs { dirs });
-        prop_oneof![4 => st, 4 => dy, 2 => nested, 2 => tokens, 2 => fdirs, 1 => twomatch].boxed()
+        prop_oneof![4 => st, 4 => dy, 2 => nested, 2 => tokens, 2 => fdirs, 1 => twomatch, 1 => late].boxed()
     }
     fn run(&self, case: &Case) -> Outcome {
         match case {
